@@ -27,7 +27,7 @@ func init() {
 		Doc: "height, growAfterSize and shrinkBelowSize change together: every function that stores one stores all three, with grow computing (height+1, shrink←old grow, grow·bf) and shrink the inverse; " +
 			"LoadMast derives both thresholds from Root.Height and Root.BranchFactor only; NewInMemory's constants agree with height 0.",
 		Run: runTHRESH})
-	Register(&Rule{ID: "NOEMPTY", Props: []string{"C04", "C09"}, Min: 3,
+	Register(&Rule{ID: "NOEMPTY", Props: []string{"C04", "C09", "C08"}, Min: 3,
 		Doc: "no entry-less node is persisted or linked: flush tests the root node for emptiness before storing it (so the empty map has one persisted form, Link=nil); " +
 			"every *mastNode stored into a Link slot or as root by a mutator is guarded by !isEmpty or is a ToShared copy of an existing link (Mast.store's own refusal of an entry-less node is not demanded: with every caller guarded it cannot fire).",
 		Run: runNOEMPTY})
